@@ -114,10 +114,25 @@ def _short_lived_datasets():
             gc.collect()
 
 
-def body_roundtrip(ctx, conv, kind, extras, perm, linear_name, wind_by, coords=False, after_others=False):
+def body_roundtrip(ctx, conv, kind, extras, perm, linear_name, wind_by, coords=False, after_others=False, refusals_first=False):
     if after_others:
         _short_lived_datasets()
     ds, convention = make_convention(conv)
+    if refusals_first:
+        # variables that are on no grid were offered first and refused (one grid dimension only, a depth profile, a
+        # scalar); what is on a grid is flattened as ever afterwards
+        for k in convention.grid_kinds:
+            gd = list(convention.grid_dimensions[k])
+            for dims_ in [tuple(gd[:1]), tuple(gd[-1:]), ('k',), ('t', 'k'), ()] if len(gd) > 1 else [('k',), ('t', 'k'), ()]:
+                shape_ = tuple(convention.dataset.sizes.get(d, 2) for d in dims_)
+                try:
+                    convention.ravel(xarray.DataArray(numpy.zeros(shape_), dims=dims_))
+                except ValueError:
+                    pass
+        try:
+            convention.depth_coordinates
+        except Exception:
+            pass
     kind_obj = next(k for k in convention.grid_kinds if k.value == kind)
     gdims, gsizes = expected_grid(convention, kind_obj)
     ctx.check(tuple(gdims) == ref_dims(conv, kind), 'the grid dimensions are the documented ones, in the documented order')
@@ -365,6 +380,10 @@ def cases(tier):
                     if ne >= 1 and (not q or kind in ('face', 'node')):
                         yield Case(f'windfirst:{conv}:{kind}:x{ne}:pos{pos}:name:column-major', body_wind_first,
                                    dict(conv=conv, kind=kind, extras=extras, position=pos, by='name', fortran=True))
+        for kind in kinds[:2]:
+            ngrid = 1 if conv.startswith('ugrid') else 2
+            yield Case(f'roundtrip:{conv}:{kind}:x1:after-refusals', body_roundtrip,
+                       dict(conv=conv, kind=kind, extras=EXTRA[:1], perm=tuple(range(ngrid + 1))[::-1], linear_name=None, wind_by='default', refusals_first=True))
         # after a series of other datasets has been flattened and wound in the same process
         for kind in kinds[:2]:
             ngrid = 1 if conv.startswith('ugrid') else 2
